@@ -37,6 +37,8 @@ def bcdValue : Nat → Nat → Nat
 /-- Every one of the low `n` nibbles is a decimal digit. -/
 def BcdOk (n d : Nat) : Prop := ∀ i, i < n → nibble i d ≤ 9
 
+instance (n d : Nat) : Decidable (BcdOk n d) := by unfold BcdOk; infer_instance
+
 /-- Number of nibbles of a `w`-bit `Bcd` (a high partial nibble is zero-extended). -/
 def nibbles (w : Nat) : Nat := (w + 3) / 4
 
@@ -56,6 +58,44 @@ structure Placed (bb : BitBlock) (o w : Nat) : Prop where
 unchanged** (the frame condition of a field write). -/
 def Updated (o w old new result : Nat) : Prop :=
   ∀ i, result.testBit i = if o ≤ i ∧ i < o + w then new.testBit (i - o) else old.testBit i
+
+/-- The documented logical value of the `w`-bit pattern `d` read as type `ty` (`none`: not a
+valid value — a `Bcd` with a nibble above 9).  `Int` and signed enums: two's complement **at
+the field width**; `Float`: the IEEE-754 bit pattern itself; `Flag`: 0 = false, 1 = true. -/
+def decodeSpec (ty : Ty) (w d : Nat) : Option Int :=
+  match ty with
+  | .uint | .flag | .float | .enum _ false => some (d : Int)
+  | .int | .enum _ true => some (twos w d)
+  | .bcd => if BcdOk (nibbles w) d then some (bcdValue (nibbles w) d : Int) else none
+
+/-- Static side conditions of a view type at field width `w` (what the compiler enforces):
+a `Flag` is one bit; an enum field is at most as wide as the enum's underlying type — and,
+for the theorems about *signed* enums, exactly as wide (narrower signed enum fields are the
+open finding `signed-enum-in-field-narrower-than-underlying-type`). -/
+def TypeFits (ty : Ty) (w : Nat) : Prop :=
+  match ty with
+  | .flag => w = 1
+  | .float => w = 32 ∨ w = 64
+  | .enum uw false => w ≤ uw
+  | .enum uw true => uw = w
+  | _ => True
+
+/-- The candidate value `x` is a value of the C++ argument type of the view's
+`CouldWriteValue`/`TryToWrite` (`UIntView`/`IntView`: any integer type `t` up to 64 bits —
+the methods are templated; `BcdView`: `ValueType`; `FlagView`: `bool`; `FloatView`: the
+float whose bit pattern is `x`; `EnumView`: the enum, i.e. its underlying type). -/
+def ArgOk (ty : Ty) (w : Nat) (t : IntT) (x : Int) : Prop :=
+  match ty with
+  | .uint | .int => t.holds x = true ∧ t.width ≤ 64
+  | .bcd => 0 ≤ x ∧ x < ((2 ^ Emboss.Bits.leastWidth w : Nat) : Int)
+  | .flag => x = 0 ∨ x = 1
+  | .float => 0 ≤ x ∧ x < ((2 ^ w : Nat) : Int)
+  | .enum uw false => 0 ≤ x ∧ x < ((2 ^ uw : Nat) : Int)
+  | .enum uw true => -((2 ^ (uw - 1) : Nat) : Int) ≤ x ∧ x < ((2 ^ (uw - 1) : Nat) : Int)
+
+/-- `x` is representable in a `w`-bit field of type `ty`: some `w`-bit pattern decodes to it. -/
+def Representable (ty : Ty) (w : Nat) (x : Int) : Prop :=
+  ∃ d, d < 2 ^ w ∧ decodeSpec ty w d = some x
 
 /-- The bits covered by the field, per the documentation. -/
 def fieldBits (bb : BitBlock) (o w : Nat) : Nat :=
